@@ -22,7 +22,8 @@ THOROUGH_N = 20000
 QUICK_BUDGET_S = 80
 THOROUGH_BUDGET_S = 900
 RULE = ("maps / map sets of all five games and the base classes (0-3 maps, every list 0-6 rows incl. all-empty lists, "
-        "shuffled row labels and column order, file-level fields), rate r > 0 from the exact stream (p/2^k with all times "
+        "shuffled row labels and column order, file-level fields; lists built float-typed or integer-typed: int64 frames, items from "
+        "Python ints, from_dict with ints, Quaver charts re-read from a .qua document), rate r > 0 from the exact stream (p/2^k with all times "
         "multiples of p: every double operation exact, equality required) or arbitrary positive doubles (2^-40 tolerance); "
         "claims scale / one / comp / writeread; non-trivial = r != 1 and at least one non-empty list with a time in it")
 ASSUMPTIONS = [
@@ -112,7 +113,7 @@ def gen_rate(rng, stream):
     elif c < 0.8:
         r = rng.uniform(0.1, 4.0)
     else:
-        r = rng.choice([1 / 3, 2 / 3, 1.1, 0.9, 1.5, 1.05, 1e-3, 1e3, 44100 / 48000])
+        r = rng.choice([1 / 3, 2 / 3, 1.1, 0.9, 1.5, 1.05, 1e-3, 1e3, 44100 / 48000, 3.0, 0.7, 1.5, 1 / 3])
     if r <= 0:
         r = 1.5
     return Fr(float(r)), 1
@@ -186,6 +187,17 @@ def gen_frame(rng, stream, mult, cols, max_rows=6, force_empty=False):
     fr = dict(cols=[c for c, _ in cols_o], rows=rows)
     if labels is not None:
         fr["labels"] = labels
+    # how the list is built: float-typed frame (default), or integer-typed time / duration / tempo columns
+    # (an int64 frame, items made from Python ints, from_dict with ints) — then every such value is a whole number
+    if rng.random() < 0.4:
+        fr["typing"] = rng.choice(["int64", "items", "from_dict"])
+        for row in rows:
+            for j, (c, k) in enumerate(cols_o):
+                if k in ("t", "d"):
+                    q = F(row[j])
+                    row[j] = R(Fr(mult * round(q / mult)))
+                elif k == "b":
+                    row[j] = R(Fr(max(1, round(F(row[j])))))
     return fr
 
 
@@ -224,6 +236,8 @@ def gen_set(rng, stream, mult, game, level):
         k = rng.choice([0, 1, 1, 2, 3])
         maps = [gen_chart(rng, stream, mult, game, empties=rng.choice(["some", "some", "some", "none", "none", "none", "all"])) for _ in range(k)]
     s = dict(maps=maps, offset=None, sample_start=None, sample_length=None, meta_set={})
+    if game == "qua" and rng.random() < 0.3:
+        s["via_file"] = True
     if level == "set" and game == "sm":
         c = rng.random()
         # None = a set built from objects whose file offset was never set (rates without raising since the D04 follow-up)
@@ -515,28 +529,53 @@ def _dtype_of(kind, col):
     return dict(t="float", d="float", b="float", f="float", i="int", B="bool", s="object", k="object")[kind]
 
 
+def _py(kind, v):
+    if kind in ("t", "d", "b", "f"):
+        return float(F(v))
+    if kind == "i":
+        return int(F(v))
+    if kind == "k":
+        return eval(v["o"], {}, {})
+    return v
+
+
 def build_list(cls, cols_kinds, fr):
     import pandas as pd
     kinds = dict(cols_kinds)
-    data = {}
-    for j, col in enumerate(fr["cols"]):
-        kind = kinds[col]
-        vals = []
-        for row in fr["rows"]:
-            v = row[j]
-            if kind in ("t", "d", "b", "f"):
-                vals.append(float(F(v)))
-            elif kind == "i":
-                vals.append(int(F(v)))
-            elif kind == "k":
-                vals.append(eval(v["o"], {}, {}))
-            else:
-                vals.append(v)
-        data[col] = pd.Series(vals, dtype=_dtype_of(kind, col))
-    df = pd.DataFrame(data, columns=fr["cols"])
+    typing = fr.get("typing")
+    whole = all(F(row[j]).denominator == 1 for row in fr["rows"] for j, col in enumerate(fr["cols"])
+                if kinds[col] in ("t", "d", "b"))
     if not fr["rows"]:
         # an empty list as the library makes it (keeps the declared dtypes), in the case's column order
         df = cls([]).df[fr["cols"]]
+        return cls(df)
+    if typing in ("items", "from_dict") and whole:
+        # Python ints for the time / duration / tempo fields, as in `Hit(1000, 0)`, `OsuBpm(0, 120)`
+        recs = []
+        for row in fr["rows"]:
+            rec = {}
+            for j, col in enumerate(fr["cols"]):
+                k = kinds[col]
+                rec[col] = int(F(row[j])) if k in ("t", "d", "b") else _py(k, row[j])
+            recs.append(rec)
+        if typing == "items":
+            item = cls._item_class()
+            lst = cls([item(**rec) for rec in recs])
+        else:
+            lst = cls.from_dict(recs)
+        lst.df = lst.df[fr["cols"]]
+        if fr.get("labels") is not None:
+            lst.df.index = fr["labels"]
+        return lst
+    data = {}
+    for j, col in enumerate(fr["cols"]):
+        kind = kinds[col]
+        vals = [_py(kind, row[j]) for row in fr["rows"]]
+        dt = _dtype_of(kind, col)
+        if typing == "int64" and whole and kind in ("t", "d", "b"):
+            vals, dt = [int(v) for v in vals], "int64"
+        data[col] = pd.Series(vals, dtype=dt)
+    df = pd.DataFrame(data, columns=fr["cols"])
     if fr.get("labels") is not None:
         df.index = fr["labels"]
     return cls(df)
@@ -562,6 +601,19 @@ def build_map(game, ch):
 
 def build_set(game, level, s):
     maps = [build_map(game, ch) for ch in s["maps"]]
+    if game == "qua" and s.get("via_file"):
+        # the charts as read from a .qua document: integer-typed times (the snapshots are taken from what was read)
+        import warnings
+        from reamber.quaver.QuaMap import QuaMap
+        redo = []
+        for m in maps:
+            try:
+                with warnings.catch_warnings():
+                    warnings.simplefilter("ignore")
+                    redo.append(QuaMap.read(m.write().split("\n")))
+            except Exception:
+                redo.append(m)
+        maps = redo
     if level == "map":
         return maps[0]
     if game == "sm":
@@ -752,8 +804,17 @@ def run_rate(case, drv):
         routes = dict(one=[F(case["r"])])
     impl = {k: impl_rate(game, level, obj, v) for k, v in routes.items()}
     after = snap_set(game, level, obj)
+    if stream == "E" and case["set"].get("via_file"):
+        # the chart was re-read from a file: judge exactness on what is really in memory
+        rs_ = [case["r"]] if claim in ("scale", "one") else [case["a"], case["b"]]
+        if not _on_e_stream(dict(set=before), rs_):
+            stream = "T"
     tags = [game, level, stream, kind]
-    eps = _eps(case)
+    if case["set"].get("via_file"):
+        tags.append("via-file")
+    if any(f.get("typing") for m in case["set"]["maps"] for _, f in m["lists"]):
+        tags.append("int-typed")
+    eps = R(0) if stream == "E" else R(EPS_T)
     ok, agree, detail = True, True, {}
     # original untouched (exact, observation)
     if after != before:
